@@ -14,6 +14,8 @@ TRUSTED = ['rustc MIR of the emitted code', 'engine/idl.py']
 def run(ctx):
     rep = Report('C08')
     gen_thrift.tolerant_reader(rep)
+    if ctx['tier'] == 'thorough':
+        gen_thrift.tolerant_reader(rep, split=True)   # same rules on the split-file output
     rep.programs = 14
     rep.disagreements_checked = rep.obligations
     rep.floor('G08.a', 300)
